@@ -249,7 +249,14 @@ def check_dst(ctx, F, crate, kind, a, row, inst, v, lab):
                 if alias.get(pn, pn) != tail["field"] and not (a["name"] in ("BootLoaderNameTag", "CommandLineTag", "ModuleTag")):
                     bad.append("tail <- parameter %s" % pn)
             rest = pieces[pi + 1:]
-            if rest and not all(r == ("unsize", ("ref", ("aggr", ("array",), (("c", 0),))), "&[u8]", "&[u8; 1]") for r in rest):
+            nul_ = ("unsize", ("ref", ("aggr", ("array",), (("c", 0),))), "&[u8]", "&[u8; 1]")
+
+            def term_piece(r):
+                # the optional terminator: a NUL byte, nothing, or a choice between the two (which one: C17.S1)
+                if r == nul_ or (r[0] == "unsize" and r[3] == "&[u8; 0]"):
+                    return True
+                return r[0] == "ite" and term_piece(r[2]) and term_piece(r[3])
+            if rest and not all(term_piece(r) for r in rest):
                 bad.append("pieces after the dynamic one: %s" % [G.show(r)[:40] for r in rest])
             off = None
             break
